@@ -358,6 +358,10 @@ def _removal_sites(ctx):
             continue
         if f.module == 'core' and f not in core_entries(ctx) and f.cls == 'Cache':
             continue
+        if f.parent is not None and f.parent.cls == 'Cache' and f.parent.name.startswith('_') and any(
+                isinstance(n, ast.Return) and isinstance(n.value, ast.Name) and n.value.id == f.name
+                for n in ast.walk(f.parent.node)):
+            continue        # a closure handed out by a private helper: analysed where it is called (inlined)
         for p in ctx.paths(f, 'default'):
             for ev in p.trace:
                 if ev.kind == 'EXT' and ev.d['name'] in REMOVERS:
@@ -379,6 +383,15 @@ def _classify_removal(f, ev, p):
         dom = any(e.kind == 'TEST' and e.d['val'].k == 'param' and e.d['val'].a[0] == 'fix' and e.d['truth']
                   for e in tr[:ev.seq])
         return 'check-repair', dom, dom, 'not dominated by `fix`'
+    if arg is not None and arg.k == 'storeelt' and arg.a[1] == 2:
+        # the file this very call has just written: discarding it is right exactly when the call fails, i.e. on a path
+        # that goes on to raise, and no committed row can name it yet
+        later_raise = any(e.kind == 'RAISE' for e in tr[ev.seq:]) or p.kind == 'raise'
+        committed = [e for e in tr[arg.a[0]:ev.seq] if e.kind == 'TXN_EXIT_OK']
+        if later_raise and not committed:
+            return 'discard-new-on-error', True, True, ''
+        return 'unclassified', False, False, 'removes the value file this call has just stored on a path that does not ' \
+            'fail (or after the row naming it was committed)'
     if arg is not None and arg.k == 'col' and arg.a[1] == 'filename':
         sel = arg.a[0]
         inst = tr[sel].d.get('inst')
